@@ -52,6 +52,9 @@ func C04(r *core.Run) {
 		"validate.UInt64Rules.GreaterThan": "oneof holder: the members are checked as slots",
 	})
 	r.Floor("R-SYM/S1", 40, "annotation fields and oneof members written by buildField/buildProperty")
+	// "the same schema is obtained when reflecting the generated .proto text": an annotation value that is set — a zero
+	// bound, `unique: false` — is printed; presence, not the value, decides
+	presentNeverSkipped(r, printRel+"/optionreflect", "walkOptionMessage", "every populated option field is printed")
 	slotAgreement(r)
 	boundPolarity(r)
 	extStructCompat(r)
